@@ -167,25 +167,29 @@ def Table.firstFree (t : Table) : Option Nat :=
 def Table.updateStatus (t : Table) : Table :=
   { t with allComplete := t.entries.all (fun e => !e.valid || e.complete) }
 
+/-- rewrite the first slot satisfying `p` (what the C loops with `break` / early `return` do) -/
+def updateFirst (p : Entry → Bool) (f : Entry → Entry) : List Entry → List Entry
+  | [] => []
+  | e :: es => if p e then f e :: es else e :: updateFirst p f es
+
+def newEntry (mac : Mac) (gen seq nowS : Nat) : Entry :=
+  { mac := mac, gen := gen, seq := seq, state := X.sessNoack, complete := false, valid := true, last := nowS, created := nowS }
+
 /-- session_table_add; returns the slot or none -/
 def Table.add (t : Table) (mac : Mac) (gen seq nowS : Nat) : Table × Option Nat :=
-  match t.find mac gen with
-  | some i =>
-    ({ t with entries := t.entries.modify i (fun e => { e with seq := seq, last := nowS }) }, some i)
-  | none =>
-    match t.firstFree with
-    | some i =>
-      ({ entries := t.entries.modify i (fun _ =>
-            { mac := mac, gen := gen, seq := seq, state := X.sessNoack, complete := false, valid := true,
-              last := nowS, created := nowS }),
-         count := (t.count + 1) % u8, allComplete := false }, some i)
-    | none => (t, none)
+  if t.entries.any (fun e => e.matches mac gen) then
+    ({ t with entries := updateFirst (fun e => e.matches mac gen) (fun e => { e with seq := seq, last := nowS }) t.entries },
+     t.find mac gen)
+  else if t.entries.any (fun e => !e.valid) then
+    ({ entries := updateFirst (fun e => !e.valid) (fun _ => newEntry mac gen seq nowS) t.entries,
+       count := (t.count + 1) % u8, allComplete := false }, t.firstFree)
+  else (t, none)
 
 def Table.remove (t : Table) (mac : Mac) (gen : Nat) : Table :=
-  let t' := match t.find mac gen with
-    | some i => { t with entries := t.entries.modify i (fun e => { e with valid := false }),
-                         count := if t.count > 0 then t.count - 1 else t.count }
-    | none => t
+  let t' := if t.entries.any (fun e => e.matches mac gen) then
+      { t with entries := updateFirst (fun e => e.matches mac gen) (fun e => { e with valid := false }) t.entries,
+               count := if t.count > 0 then t.count - 1 else t.count }
+    else t
   t'.updateStatus
 
 def Table.clear (_t : Table) : Table := Table.create
@@ -194,16 +198,11 @@ def Table.isEmpty (t : Table) : Bool := t.count == 0
 
 /-- what the Darwin glue does on an acknowledging Discover: `entry->complete = true` then update status -/
 def Table.markComplete (t : Table) (mac : Mac) (gen : Nat) : Table :=
-  let t' := match t.find mac gen with
-    | some i => { t with entries := t.entries.modify i (fun e => { e with complete := true }) }
-    | none => t
-  t'.updateStatus
+  ({ t with entries := updateFirst (fun e => e.matches mac gen) (fun e => { e with complete := true }) t.entries } : Table).updateStatus
 
 /-- glue: `entry->state = ev; entry->last_activity_ts = now` -/
 def Table.touch (t : Table) (mac : Mac) (gen st nowS : Nat) : Table :=
-  match t.find mac gen with
-  | some i => { t with entries := t.entries.modify i (fun e => { e with state := st, last := nowS }) }
-  | none => t
+  { t with entries := updateFirst (fun e => e.matches mac gen) (fun e => { e with state := st, last := nowS }) t.entries }
 
 /-- the expiry sweep of automata_tick -/
 def expireLoop (nowS : Nat) : List Entry → Nat → List Entry × Nat
